@@ -45,6 +45,19 @@ m = {
              "ASan/UBSan + model/impl/spec differential run + known-findings handling (known_findings.json).",
 }
 json.dump(m, open(os.path.join(V, "MANIFEST.json"), "w"), indent=1)
+
+# known_findings.json: `findings` assembled from props/<ID>.findings.json fragments (development time only;
+# the file is committed and never written by a check)
+kf_path = os.path.join(V, "known_findings.json")
+kf = json.load(open(kf_path))
+found = []
+for fp in sorted(glob.glob(os.path.join(V, "props", "*.findings.json"))):
+    for f in json.load(open(fp)):
+        for k in ("id", "property", "status", "what"):
+            assert k in f, (fp, k)
+        found.append(f)
+kf["findings"] = found
+json.dump(kf, open(kf_path, "w"), indent=1)
 try:
     sys.path.insert(0, "/opt/veriftools/pyvenv/lib/python3.11/site-packages")
     import jsonschema
